@@ -259,7 +259,7 @@ var apiNames = map[string]bool{
 	"verifI8": true, "verifI16": true, "verifI32": true, "verifI64": true, "verifInt": true,
 	"verifBytes": true, "verifIntFrom": true, "verifString": true, "verifChoice": true, "verifAssume": true, "verifAssert": true,
 	"verifReach": true, "verifTag": true, "verifObserve": true, "verifParam": true, "verifRegister": true,
-	"verifSymbolic": true, "verifIsConcrete": true, "verifCheck": true, "verifFlushChecks": true, "verifAnd": true, "verifSelU8": true, "verifOr": true,
+	"verifSymbolic": true, "verifIsConcrete": true, "verifCheck": true, "verifFlushChecks": true, "verifAnd": true, "verifSelI64": true, "verifCount": true, "verifB2I": true, "verifSelU8": true, "verifOr": true,
 	// environment
 	"verifFSSnapshot": true, "verifFSRestore": true, "verifFSCutToSynced": true, "verifFSReset": true,
 	"verifTick": true, "verifYield": true, "verifNumTickers": true, "verifLockHeld": true,
